@@ -134,7 +134,7 @@ class Gen:
             try:
                 with np.errstate(all="ignore"):
                     out = self._try(op, p, v)
-            except (TypeError, ValueError, IndexError):
+            except (TypeError, ValueError, IndexError, OverflowError):
                 out = None      # not a valid NumPy program: skip
             if out is not None:
                 return out
@@ -567,6 +567,7 @@ def build(prog, da, sources, memo=None, hooks=None):
         out = da.fft.fftfreq(prog[1], prog[2], chunks=(prog[3],))
     elif t == "nparray":
         out = sources[prog[1]][0]
+        out = getattr(out, "_data", out)        # a literal NumPy value, never a (recording) source
     elif t == "setitem":
         out = rec(prog[1]).copy()
         out[prog[2]] = rec(prog[3])
